@@ -21,6 +21,28 @@ def _sig(rj):
     return sig
 
 
+def _pick_solved(ev):
+    # an accepted solve of a regular matrix whose scaled solution is logged: A.Xs = d.B is asserted on every entry
+    return ev.get("e") == "Solve" and ev.get("r") == "ok" and not ev.get("big") and ev.get("d") != 0 and "Xs" in ev
+
+
+def _flip_solved(ev):
+    ev["Xs"]["e"][-1][-1] += 1
+
+
+def _pick_singular(ev):
+    return ev.get("e") == "Solve" and ev.get("r") == "raise:ZeroDivisionException" and ev.get("d") == 0
+
+
+def _flip_singular(ev):
+    ev["r"] = "ok"          # a singular system reported as solved
+    ev["big"] = True
+    ev["ind"] = 0
+
+
+LU_CONTROLS = [("solution entry + 1", _pick_solved, _flip_solved), ("singular reported as solved", _pick_singular, _flip_singular)]
+
+
 def build_driver():
     return vc.build_driver("drv_lu", link_lib=False, sanitize=True)
 
@@ -73,9 +95,7 @@ def run(tier, seed):
         s = c04.run_driver(exe, args, tr)
         _validate(ck, tr)
         if name == "random":
-            c04.corruption_control(ck, tr, "LuIntTrace", TRACE_CFG,
-                                   lambda ev: ev.get("e") == "Solve" and ev.get("r") == "ok" and not ev.get("big"),
-                                   lambda ev: ev["Xs"]["e"][-1].__setitem__(-1, ev["Xs"]["e"][-1][-1] + 1), wd)
+            c04.corruption_control(ck, tr, "LuIntTrace", TRACE_CFG, LU_CONTROLS, wd)
             ck.samples += vc.sample_scenarios(tr, 3, maxlines=6)
             for k in ("solves", "singular_refusals", "other_refusals", "skipped_big", "rhs_class_column_combos"):
                 ck.extra[k] = s.get(k, 0)
